@@ -70,7 +70,10 @@ class C01(PropCheck):
     def finding_replays(self):
         return {'fixed-height-forgets-overflow': fixed_height_drops,
                 'out-of-flow-lost-at-document-end': float_lost_at_end,
-                'flex-grid-fragmentation-loses-content': grid_item_lost}
+                'flex-grid-fragmentation-loses-content': grid_item_lost,
+                'float-fragment-duplicated': lambda: corpus_fails('float_fragment_duplicated'),
+                'footnote-in-columns-lost-or-duplicated': lambda: corpus_fails('footnote_in_columns'),
+                'table-in-columns-duplicates-rows': lambda: corpus_fails('table_in_columns_duplicates_rows')}
 
     def replay(self, data):
         inp = data.get('input', {})
@@ -100,6 +103,16 @@ def _words_lost(html, count):
     texts = ' '.join(t for page in docs.page_texts(docs.render(html)) for t in page)
     seen = {int(m) for m in re.findall(r'w(\d+)', texts)}
     return any(i not in seen for i in range(1, count + 1))
+
+
+def corpus_fails(name):
+    import json
+    from harness import widegen
+    from vlib.paths import CORPUS
+    data = json.loads((CORPUS / 'C01' / f'{name}.json').read_text())
+    docs.quiet()
+    pages = widegen.page_words(docs.render(data['html']))
+    return bool(wide_trace.conserve_violation({'groups': data['groups'], 'pages': pages}, 'ok'))
 
 
 def float_lost_at_end():
